@@ -30,7 +30,7 @@ struct C19 : drv::Harness
 			{
 				int d = (int)rng.below(10); int64_t delta = d < 4 ? 0 : d < 7 ? rng.range(1, 5) : -rng.range(1, 5);
 				int64_t pd = delta < 0 ? rng.pick(std::vector<int64_t>{ 0, 1, 2, 2, 2 }) : rng.pick(std::vector<int64_t>{ 0, 0, 0, 1, 2 });
-				int64_t ost = pd == 2 ? rng.pick(std::vector<int64_t>{ 0, 1, 1, 2, 3 }) : rng.pick(std::vector<int64_t>{ 0, 0, 0, 1, 3 });
+				int64_t ost = pd == 2 ? rng.pick(std::vector<int64_t>{ 0, 1, 1, 2, 3, 4, 5, 6 }) : rng.pick(std::vector<int64_t>{ 0, 0, 0, 1, 3 });
 				int64_t comp = rng.chance(0.12) ? rng.range(1, 2) : 0;
 				int64_t kind = rng.chance(0.8) ? 0 : rng.pick(std::vector<int64_t>{ 3, 4 });
 				int64_t h34 = rng.chance(0.2) ? rng.range(1, 3) : 0;   // 1: text 34=<expected>, 2: 34=<expected-1>, 3: 34=<seq+1> inside an earlier header value
@@ -74,7 +74,9 @@ struct C19 : drv::Harness
 			else { f.push_back({34, std::to_string(seq)}); f.push_back({49, snd}); f.push_back({56, tgt}); if (!h34text.empty()) f.push_back({115, h34text}); }
 			if (pd) f.push_back({43, pd == 2 ? "Y" : "N"});
 			f.push_back({52, utc_ts(now)});
-			if (ost) f.push_back({122, utc_ts(ost == 1 ? now - 5000000000ll : ost == 2 ? now : now + 5000000000ll)});
+			// OrigSendingTime: 1 five seconds earlier, 2 equal, 3 five seconds later, 4 one millisecond later, 5 400 ms later, 6 one millisecond earlier
+			static const int64_t ost_delta[] = { 0, -5000000000ll, 0, 5000000000ll, 1000000ll, 400000000ll, -1000000ll };
+			if (ost) f.push_back({122, utc_ts(now + ost_delta[ost % 7])});
 			for (auto& x : body) f.push_back(x);
 			return wire("FIX.4.2", f);
 		};
@@ -113,7 +115,7 @@ struct C19 : drv::Harness
 			const bool undecodable = kind >= 3;
 			size_t dmark = w.ses->delivered.size(), omark = w.out.size();
 			std::string desc = "inbound app message MsgSeqNum=" + std::to_string(seq) + " (session expected " + std::to_string(expected) + ", state " + state_name(state_before) + ")"
-				+ (pd ? std::string(" PossDupFlag=") + (pd == 2 ? "Y" : "N") : "") + (ost ? std::string(" OrigSendingTime ") + (ost == 1 ? "earlier" : ost == 2 ? "equal" : "later") : "")
+				+ (pd ? std::string(" PossDupFlag=") + (pd == 2 ? "Y" : "N") : "") + (ost ? std::string(" OrigSendingTime ") + (ost == 1 ? "earlier" : ost == 2 ? "equal" : ost == 3 ? "later" : ost == 4 ? "1ms later" : ost == 5 ? "400ms later" : "1ms earlier") : "")
 				+ (comp ? std::string(" wrong ") + (comp == 1 ? "SenderCompID" : "TargetCompID") : "") + (undecodable ? " undecodable(kind " + std::to_string(kind) + ")" : "") + (h34text.empty() ? "" : " with 115=" + h34text + (order ? " before" : " after") + " tag 34");
 			sim::trace("INJECT " + desc);
 			w.peer.send(bytes); ++pins;
@@ -130,7 +132,7 @@ struct C19 : drv::Harness
 			bool ended = w.ses->terminated();
 			std::string tail = " -> delivered=" + std::to_string(delivered) + " ended=" + std::to_string(ended) + " wire: " + (wire.empty() ? "(nothing)" : wire);
 			const bool established = States::is_established((States::SessionStates)state_before);
-			const bool possdup_ok = pd == 2 && ost != 3;
+			const bool possdup_ok = pd == 2 && !(ost >= 3 && ost <= 5);
 			const bool compid_bad = comp && w.enforce;
 			std::string sname = state_name(state_before);
 			// the only-if clause holds in every state
